@@ -885,3 +885,29 @@ Definition default_of (kind : N) : anyobj :=
   match kind with
   | 0%N => OAxis def_axis | 1%N => OLine def_line | 2%N => OText def_text | 3%N => OGraph def_graph | _ => OWorld def_world
   end.
+
+(* ================= mpt++ object interface (mpt++/layout.cpp, mpt++/graph.cpp) =================
+   layout::graph::axis, layout::line, layout::text, layout::graph, layout::graph::world derive from the C structs;
+   object::set_property / object::property hand over to mpt_*_set / mpt_*_get on `this`.  layout::graph::set_property
+   additionally refreshes its transformation (_gtr) after an accepted assignment from a source: that is no listed
+   property and no struct member of mpt::graph, so the wrapper is the C call on the properties. *)
+Definition cxx_set_property (o : anyobj) (name : option bytes) (src : option source) : sres * anyobj :=
+  match o with
+  | OGraph x =>
+    let '(r, x') := graph_set x name src in
+    (* ret < 0 || !src: return; else update_transform(); return ret *)
+    (r, OGraph x')
+  | _ => obj_set o name src
+  end.
+Definition cxx_property_by_name (o : anyobj) (name : bytes) : Z + pent := obj_get o name.
+Definition cxx_property_by_pos (o : anyobj) : list pent := obj_listed o.
+(* constructors: axis(AxisFlags type) = mpt_axis_init + format = type & 0x3; world(int c): cyc = c < 0 ? 1 : c;
+   the others (and the default arguments: AxisStyleGen = 0, c = 0) are mpt_*_init *)
+Definition cxx_new_axis (flags : Z) : anyobj := OAxis (set_ax_format (Z.land flags 3) def_axis).
+Definition cxx_new_world (c : Z) : anyobj := OWorld (set_wl_cyc (if c <? 0 then 1 else c) def_world).
+Definition cxx_new (kind : N) : anyobj :=
+  match kind with 0%N => cxx_new_axis 0 | 4%N => cxx_new_world 0 | k => default_of k end.
+(* copy construction / clone (axis(const ::mpt::axis *from) etc.): *this = *from through the C init with template *)
+Definition cxx_clone (o : anyobj) : anyobj := o.
+(* the object as a generic assignment source: its convert() answers the pointer (line: value) type of its class *)
+Definition cxx_source (o : anyobj) : source := SObj o.
